@@ -230,8 +230,8 @@ func (b *c02TreeB) walk(v reflect.Value, cur *c02Scope, flag bool) {
 			b.walk(reflect.ValueOf(&n.Extends).Elem(), cur, flag)
 			for i := range n.List {
 				el := &n.List[i]
-				if el.StaticBlock != nil { // never handed to renameScope
-					s := b.open(&el.StaticBlock.Scope, cur, false, false)
+				if el.StaticBlock != nil { // renamed like a block since fix 1b16362
+					s := b.open(&el.StaticBlock.Scope, cur, flag, false)
 					b.walk(reflect.ValueOf(el.StaticBlock.List), s, flag)
 				} else if el.Method != nil {
 					b.walk(reflect.ValueOf(el.Method), cur, flag)
@@ -810,7 +810,7 @@ const c02NodeRunner = `
 const vm = require('vm'); const fs = require('fs');
 const cases = JSON.parse(fs.readFileSync(process.argv[2], 'utf8'));
 const globals = JSON.parse(fs.readFileSync(process.argv[3], 'utf8'));
-let prelude = "var $$t=[];function $$s(v){if(typeof v==='function')return 'fn';if(v===undefined)return 'undef';" +
+let prelude = "Function.prototype.toString=function(){return 'fn'};var $$t=[];function $$s(v){if(typeof v==='function')return 'fn';if(v===undefined)return 'undef';" +
  "if(typeof v==='object'&&v!==null){try{return JSON.stringify(v,function(k,x){return typeof x==='function'?'fn':x})}catch(e){return 'obj'}}return String(v)}" +
  "function R(){var a=[];for(var i=0;i<arguments.length;i++)a.push($$s(arguments[i]));$$t.push(a.join(','));return arguments[arguments.length-1]}";
 const out = [];
@@ -1471,7 +1471,7 @@ func c02RunAll(c *Ctx, cases []*c02Case) error {
 		case cs.trig.elseFlatten:
 			known = "K-C02-1"
 		case !cs.flagsOk:
-			known = "K-C02-2/3"
+			known = "K-C02-2"
 		case cs.trig.topLevelWith:
 			known = "K-C02-4"
 		case cs.hoistShadow:
